@@ -3,6 +3,7 @@
 # For each stored seed: fresh worktree of /repo at the seed's base commit, apply the patch, run the quick check of
 # its property (and the extra checks listed in meta.json "also_check") against that worktree, record what was reported.
 export GOFLAGS=-mod=mod GOPROXY=off GOSUMDB=off GOTOOLCHAIN=local
+export VERIF_EVIDENCE_DIR=/tmp/eval-evidence
 cd /verif
 SEEDS=${@:-$(ls seeded)}
 for s in $SEEDS; do
